@@ -121,7 +121,7 @@ int vh_closedir(DIR* d) { ev_note(EV_closedir); g_ev_dir = d; EV_STREAM_LIVE(d);
 off_t vh_lseek(int fd, off_t off, int whence) {
     if (g_ev_calls < EV_SEQ_MAX) { g_ev_seq_off[g_ev_calls] = off; g_ev_seq_whence[g_ev_calls] = whence; }
     ev_note(EV_lseek); g_ev_fd = fd; g_ev_off = off; g_ev_whence = whence;
-    if (whence == SEEK_SET && off < 0) { errno = EINVAL; if (g_ev_cur < EV_SEQ_MAX) { g_ev_seq_res[g_ev_cur] = -1; g_ev_seq_errno[g_ev_cur] = EINVAL; } return (off_t)-1; }   /* POSIX: a negative resulting offset is EINVAL */
+    if (whence == SEEK_SET && off < 0) { errno = EINVAL; g_ev_errno_on_fail = EINVAL; g_ev_result = -1; if (g_ev_cur < EV_SEQ_MAX) { g_ev_seq_res[g_ev_cur] = -1; g_ev_seq_errno[g_ev_cur] = EINVAL; } return (off_t)-1; }   /* POSIX: a negative resulting offset is EINVAL */
     { ND(long long, ev_pos); ASSUME(ev_pos >= 0); EV_FAIL_OR((off_t)ev_pos); }
 }
 static const struct iovec* g_ev_iov = 0;
